@@ -4624,6 +4624,34 @@ fn eval_call(
         .pop_value()
         .expect("Popped an empty value stack for call receiver");
 
+    // If the call fails, put the receiver and arguments back in the
+    // order they were pushed, so resuming pops the same values again.
+    let mut saved_values = vec![receiver_value.clone()];
+    for value in arg_values.iter().rev() {
+        saved_values.push(value.clone());
+    }
+
+    eval_call_with_values(
+        env,
+        expr_value_is_used,
+        caller_expr,
+        receiver_value,
+        &arg_positions,
+        &arg_values,
+        session,
+    )
+    .map_err(|(_, e)| (RestoreValues(saved_values), e))
+}
+
+fn eval_call_with_values(
+    env: &mut Env,
+    expr_value_is_used: bool,
+    caller_expr: Rc<Expression>,
+    receiver_value: Value,
+    arg_positions: &[Position],
+    arg_values: &[Value],
+    session: &Session,
+) -> Result<Option<StackFrame>, (RestoreValues, EvalError)> {
     let stack_frame = env.current_frame_mut();
 
     match receiver_value.as_ref() {
@@ -5085,6 +5113,34 @@ fn eval_method_call(
         .pop_value()
         .expect("Popped an empty value stack for method call receiver.");
 
+    // If the call fails, put the receiver and arguments back in the
+    // order they were pushed, so resuming pops the same values again.
+    let mut saved_values = vec![receiver_value.clone()];
+    for value in arg_values.iter().rev() {
+        saved_values.push(value.clone());
+    }
+
+    eval_method_call_with_values(
+        env,
+        expr_value_is_used,
+        caller_expr,
+        meth_name,
+        receiver_value,
+        &arg_positions,
+        &arg_values,
+    )
+    .map_err(|(_, e)| (RestoreValues(saved_values), e))
+}
+
+fn eval_method_call_with_values(
+    env: &mut Env,
+    expr_value_is_used: bool,
+    caller_expr: Rc<Expression>,
+    meth_name: &Symbol,
+    receiver_value: Value,
+    arg_positions: &[Position],
+    arg_values: &[Value],
+) -> Result<Option<StackFrame>, (RestoreValues, EvalError)> {
     let receiver_type_name = type_representation(&receiver_value);
 
     let prev_meth_calls_for_ty = env
@@ -5095,7 +5151,7 @@ fn eval_method_call(
     if !prev_meth_calls_for_ty.contains_key(&meth_name.name) {
         prev_meth_calls_for_ty.insert(
             meth_name.name.clone(),
-            (receiver_value.clone(), arg_values.clone()),
+            (receiver_value.clone(), arg_values.to_vec()),
         );
     }
 
